@@ -16,6 +16,17 @@
 #include "gmp++/gmp++.h"
 #include "givinteger.h"
 #include "giverror.h"
+#ifdef C01_DEBUGCFG
+// Second configuration (givaro's --enable-debug: -D__GIVARO_DEBUG): the anchored translation units that contain debug-only code
+// (`#ifdef __GIVARO_DEBUG` blocks, GIVARO_ASSERT / GIVARO_ENSURE / GIVARO_REQUIRE) are compiled HERE with that code switched on (the archive
+// members of the release library are then not pulled by the linker).  A failing post-condition throws GivError: printed as THROWS.
+#ifndef __GIVARO_DEBUG
+#error "C01_DEBUGCFG needs -D__GIVARO_DEBUG"
+#endif
+#include "gmp++/gmp++_int_gcd.C"
+#include "gmp++/gmp++_int_misc.C"
+#include "gmp++/gmp++_int_pow.C"
+#endif
 
 using namespace Givaro;
 
